@@ -57,60 +57,61 @@ mod set_reach__pari;
 mod set_reach__src2;
 mod bset__par;
 mod cp__topar;
-mod lex_lat__par;
-mod lat_multi_improve__ser;
-mod lat_pre_join__to;
-mod lat_input__ser;
-mod lat_input__src0;
-mod lat_input__srcpar;
-mod count_paths__gen;
-mod count_paths__runpar;
-mod neg_basic__mrt;
-mod neg_basic__init;
-mod neg_basic__exppar;
-mod agg_depth__topar;
-mod agg_user__pari;
-mod agg_bound_mix__pari;
-mod agg_empty_rel__pari;
-mod agg_pre_join__ser;
-mod disj__run;
-mod disj__redecl;
-mod disj__exp;
-mod pat_args__par;
-mod rep_expr__exppar;
-mod neg_in_disj__pari;
-mod mac_basic__run;
-mod mac_basic__redecl;
-mod mac_capture__pari;
-mod mac_gensym_disj__ser;
-mod mac_local_names__exp;
-mod mac_disj__par;
-mod stress_set__par;
-mod rnd_core_02__ser;
-mod rnd_core_04__pari;
-mod rnd_core_07__par;
-mod rnd_core_10__ser;
-mod rnd_core_12__pari;
-mod rnd_core_15__par;
-mod rnd_core_18__ser;
-mod rnd_core_20__pari;
-mod rnd_core_23__par;
-mod rnd_core_26__ser;
-mod rnd_core_28__pari;
-mod rnd_agg_01__par;
-mod rnd_agg_04__ser;
-mod rnd_agg_06__pari;
-mod rnd_agg_09__par;
-mod rnd_agg_12__ser;
-mod rnd_agg_14__pari;
-mod rnd_prec_01__topar;
-mod rnd_prec_03__pari;
-mod rnd_prec_05__ser;
-mod rnd_prec_06__to;
-mod rnd_prec_08__par;
-mod rnd_prea_02__par;
-mod rnd_prea_05__ser;
-mod rnd_prea_07__pari;
+mod lat_tree__topar;
+mod bool_lat__par;
+mod lat_multi_improve__to;
+mod lat_count_all__par;
+mod lat_input__to;
+mod lat_input__srcto;
+mod count_paths__pari;
+mod count_paths__src2;
+mod neg_basic__par;
+mod neg_basic__src1;
+mod neg_basic__perm1;
+mod agg_minmaxsum__pari;
+mod agg_lattice__pari;
+mod neg_rec_after__pari;
+mod agg_empty__pari;
+mod agg_const_args__ser;
+mod disj__ser;
+mod disj__src0;
+mod disj__srcpar;
+mod disj_nested__par;
+mod pat_args__exppar;
+mod multi_head_disj__pari;
+mod mac_basic__ser;
+mod mac_basic__src0;
+mod mac_basic__srcpar;
+mod mac_nested__ser;
+mod mac_gensym_disj__exp;
+mod mac_block__par;
+mod mac_disj__exppar;
+mod stress_rel__par;
+mod rnd_core_03__ser;
+mod rnd_core_05__pari;
+mod rnd_core_08__par;
+mod rnd_core_11__ser;
+mod rnd_core_13__pari;
+mod rnd_core_16__par;
+mod rnd_core_19__ser;
+mod rnd_core_21__pari;
+mod rnd_core_24__par;
+mod rnd_core_27__ser;
+mod rnd_core_29__pari;
+mod rnd_agg_02__par;
+mod rnd_agg_05__ser;
+mod rnd_agg_07__pari;
+mod rnd_agg_10__par;
+mod rnd_agg_13__ser;
+mod rnd_agg_15__pari;
+mod rnd_prec_02__pari;
+mod rnd_prec_04__ser;
+mod rnd_prec_05__to;
+mod rnd_prec_07__par;
+mod rnd_prec_08__topar;
+mod rnd_prea_03__par;
+mod rnd_prea_06__ser;
+mod rnd_prea_08__pari;
 
 fn lookup(name: &str) -> fn() -> Box<dyn Driven> {
    match name {
@@ -163,60 +164,61 @@ fn lookup(name: &str) -> fn() -> Box<dyn Driven> {
       "set_reach__src2" => set_reach__src2::make,
       "bset__par" => bset__par::make,
       "cp__topar" => cp__topar::make,
-      "lex_lat__par" => lex_lat__par::make,
-      "lat_multi_improve__ser" => lat_multi_improve__ser::make,
-      "lat_pre_join__to" => lat_pre_join__to::make,
-      "lat_input__ser" => lat_input__ser::make,
-      "lat_input__src0" => lat_input__src0::make,
-      "lat_input__srcpar" => lat_input__srcpar::make,
-      "count_paths__gen" => count_paths__gen::make,
-      "count_paths__runpar" => count_paths__runpar::make,
-      "neg_basic__mrt" => neg_basic__mrt::make,
-      "neg_basic__init" => neg_basic__init::make,
-      "neg_basic__exppar" => neg_basic__exppar::make,
-      "agg_depth__topar" => agg_depth__topar::make,
-      "agg_user__pari" => agg_user__pari::make,
-      "agg_bound_mix__pari" => agg_bound_mix__pari::make,
-      "agg_empty_rel__pari" => agg_empty_rel__pari::make,
-      "agg_pre_join__ser" => agg_pre_join__ser::make,
-      "disj__run" => disj__run::make,
-      "disj__redecl" => disj__redecl::make,
-      "disj__exp" => disj__exp::make,
-      "pat_args__par" => pat_args__par::make,
-      "rep_expr__exppar" => rep_expr__exppar::make,
-      "neg_in_disj__pari" => neg_in_disj__pari::make,
-      "mac_basic__run" => mac_basic__run::make,
-      "mac_basic__redecl" => mac_basic__redecl::make,
-      "mac_capture__pari" => mac_capture__pari::make,
-      "mac_gensym_disj__ser" => mac_gensym_disj__ser::make,
-      "mac_local_names__exp" => mac_local_names__exp::make,
-      "mac_disj__par" => mac_disj__par::make,
-      "stress_set__par" => stress_set__par::make,
-      "rnd_core_02__ser" => rnd_core_02__ser::make,
-      "rnd_core_04__pari" => rnd_core_04__pari::make,
-      "rnd_core_07__par" => rnd_core_07__par::make,
-      "rnd_core_10__ser" => rnd_core_10__ser::make,
-      "rnd_core_12__pari" => rnd_core_12__pari::make,
-      "rnd_core_15__par" => rnd_core_15__par::make,
-      "rnd_core_18__ser" => rnd_core_18__ser::make,
-      "rnd_core_20__pari" => rnd_core_20__pari::make,
-      "rnd_core_23__par" => rnd_core_23__par::make,
-      "rnd_core_26__ser" => rnd_core_26__ser::make,
-      "rnd_core_28__pari" => rnd_core_28__pari::make,
-      "rnd_agg_01__par" => rnd_agg_01__par::make,
-      "rnd_agg_04__ser" => rnd_agg_04__ser::make,
-      "rnd_agg_06__pari" => rnd_agg_06__pari::make,
-      "rnd_agg_09__par" => rnd_agg_09__par::make,
-      "rnd_agg_12__ser" => rnd_agg_12__ser::make,
-      "rnd_agg_14__pari" => rnd_agg_14__pari::make,
-      "rnd_prec_01__topar" => rnd_prec_01__topar::make,
-      "rnd_prec_03__pari" => rnd_prec_03__pari::make,
-      "rnd_prec_05__ser" => rnd_prec_05__ser::make,
-      "rnd_prec_06__to" => rnd_prec_06__to::make,
-      "rnd_prec_08__par" => rnd_prec_08__par::make,
-      "rnd_prea_02__par" => rnd_prea_02__par::make,
-      "rnd_prea_05__ser" => rnd_prea_05__ser::make,
-      "rnd_prea_07__pari" => rnd_prea_07__pari::make,
+      "lat_tree__topar" => lat_tree__topar::make,
+      "bool_lat__par" => bool_lat__par::make,
+      "lat_multi_improve__to" => lat_multi_improve__to::make,
+      "lat_count_all__par" => lat_count_all__par::make,
+      "lat_input__to" => lat_input__to::make,
+      "lat_input__srcto" => lat_input__srcto::make,
+      "count_paths__pari" => count_paths__pari::make,
+      "count_paths__src2" => count_paths__src2::make,
+      "neg_basic__par" => neg_basic__par::make,
+      "neg_basic__src1" => neg_basic__src1::make,
+      "neg_basic__perm1" => neg_basic__perm1::make,
+      "agg_minmaxsum__pari" => agg_minmaxsum__pari::make,
+      "agg_lattice__pari" => agg_lattice__pari::make,
+      "neg_rec_after__pari" => neg_rec_after__pari::make,
+      "agg_empty__pari" => agg_empty__pari::make,
+      "agg_const_args__ser" => agg_const_args__ser::make,
+      "disj__ser" => disj__ser::make,
+      "disj__src0" => disj__src0::make,
+      "disj__srcpar" => disj__srcpar::make,
+      "disj_nested__par" => disj_nested__par::make,
+      "pat_args__exppar" => pat_args__exppar::make,
+      "multi_head_disj__pari" => multi_head_disj__pari::make,
+      "mac_basic__ser" => mac_basic__ser::make,
+      "mac_basic__src0" => mac_basic__src0::make,
+      "mac_basic__srcpar" => mac_basic__srcpar::make,
+      "mac_nested__ser" => mac_nested__ser::make,
+      "mac_gensym_disj__exp" => mac_gensym_disj__exp::make,
+      "mac_block__par" => mac_block__par::make,
+      "mac_disj__exppar" => mac_disj__exppar::make,
+      "stress_rel__par" => stress_rel__par::make,
+      "rnd_core_03__ser" => rnd_core_03__ser::make,
+      "rnd_core_05__pari" => rnd_core_05__pari::make,
+      "rnd_core_08__par" => rnd_core_08__par::make,
+      "rnd_core_11__ser" => rnd_core_11__ser::make,
+      "rnd_core_13__pari" => rnd_core_13__pari::make,
+      "rnd_core_16__par" => rnd_core_16__par::make,
+      "rnd_core_19__ser" => rnd_core_19__ser::make,
+      "rnd_core_21__pari" => rnd_core_21__pari::make,
+      "rnd_core_24__par" => rnd_core_24__par::make,
+      "rnd_core_27__ser" => rnd_core_27__ser::make,
+      "rnd_core_29__pari" => rnd_core_29__pari::make,
+      "rnd_agg_02__par" => rnd_agg_02__par::make,
+      "rnd_agg_05__ser" => rnd_agg_05__ser::make,
+      "rnd_agg_07__pari" => rnd_agg_07__pari::make,
+      "rnd_agg_10__par" => rnd_agg_10__par::make,
+      "rnd_agg_13__ser" => rnd_agg_13__ser::make,
+      "rnd_agg_15__pari" => rnd_agg_15__pari::make,
+      "rnd_prec_02__pari" => rnd_prec_02__pari::make,
+      "rnd_prec_04__ser" => rnd_prec_04__ser::make,
+      "rnd_prec_05__to" => rnd_prec_05__to::make,
+      "rnd_prec_07__par" => rnd_prec_07__par::make,
+      "rnd_prec_08__topar" => rnd_prec_08__topar::make,
+      "rnd_prea_03__par" => rnd_prea_03__par::make,
+      "rnd_prea_06__ser" => rnd_prea_06__ser::make,
+      "rnd_prea_08__pari" => rnd_prea_08__pari::make,
       _ => panic!("no such program variant in this shard: {}", name),
    }
 }
